@@ -3,6 +3,7 @@
 #include <cassert>
 #include <condition_variable>
 #include <deque>
+#include <exception>
 #include <future>
 #include <mutex>
 #include <nano/arch.h>
@@ -237,9 +238,26 @@ public:
         NANO_VERIF_POOL(map_enter, &m_queue, static_cast<long long>(elements), 0);
         if (size() == 1 || elements <= 1)
         {
+            // NB: same contract as the parallel path: all elements are processed and
+            //     the first exception (if any) is re-thrown only if requested.
+            std::exception_ptr error;
             for (tsize index = 0; index < elements; ++index)
             {
-                op(index, 0U);
+                try
+                {
+                    op(index, 0U);
+                }
+                catch (...)
+                {
+                    if (!error)
+                    {
+                        error = std::current_exception();
+                    }
+                }
+            }
+            if (raise && error)
+            {
+                std::rethrow_exception(error);
             }
         }
         else
@@ -281,9 +299,26 @@ public:
         NANO_VERIF_POOL(map_enter, &m_queue, static_cast<long long>(elements), static_cast<long long>(chunksize));
         if (size() == 1 || chunksize >= elements)
         {
+            // NB: same contract as the parallel path: all chunks are processed and
+            //     the first exception (if any) is re-thrown only if requested.
+            std::exception_ptr error;
             for (tsize begin = 0; begin < elements; begin += chunksize)
             {
-                op(begin, std::min(begin + chunksize, elements), 0U);
+                try
+                {
+                    op(begin, std::min(begin + chunksize, elements), 0U);
+                }
+                catch (...)
+                {
+                    if (!error)
+                    {
+                        error = std::current_exception();
+                    }
+                }
+            }
+            if (raise && error)
+            {
+                std::rethrow_exception(error);
             }
         }
         else
